@@ -25,7 +25,7 @@ def load_dlib_program():
     prog.layouts = common.parse_layouts(ts, prog.struct_fields)
     # chrony-candm's Tracking and enums are declared in the registry sources
     import glob
-    for f in glob.glob('/root/.cargo/registry/src/*/chrony-candm-0.1.1/src/reply.rs') + glob.glob('/root/.cargo/registry/src/*/chrony-candm-0.1.1/src/common.rs'):
+    for f in glob.glob('/root/.cargo/registry/src/*/chrony-candm-0.1.1/src/reply.rs') + glob.glob('/root/.cargo/registry/src/*/chrony-candm-0.1.1/src/common.rs') + glob.glob('/root/.cargo/registry/src/*/chrony-candm-0.1.1/src/request.rs'):
         prog.scan_text(open(f).read())
     return prog, wall
 
@@ -79,6 +79,13 @@ def time_env(tm_now):
         ex.side.append(z3.Implies(z3.And(x >= 0, x < 2 ** 64), z3.And(nr >= x * NS - z3.RealVal('1/2'), nr <= x * NS + z3.RealVal('1/2'), n >= 0)))
         return Enum(z3.If(z3.And(x >= 0, x < 2 ** 64), z3.IntVal(0), z3.IntVal(1)), {'Ok': Struct([Struct([n])]), 'Err': Struct([Opaque('TryFromFloatSecsError')])})
 
+    def dur_get(ex, st, callee, args, fn):
+        a = ex.deref(st, args[0]) if isinstance(args[0], Ref) else args[0]
+        k = callee.rsplit('::', 1)[1]
+        ns = a.f[0]
+        return {'as_nanos': ns, 'as_micros': ns / 1000, 'as_millis': ns / 10 ** 6, 'as_secs': ns / NS, 'subsec_nanos': ns % NS,
+                'subsec_micros': (ns % NS) / 1000, 'subsec_millis': (ns % NS) / 10 ** 6, 'is_zero': ns == 0}[k]
+
     def dur_cmp(ex, st, callee, args, fn):
         a = ex.deref(st, args[0]) if isinstance(args[0], Ref) else args[0]
         b = ex.deref(st, args[1]) if isinstance(args[1], Ref) else args[1]
@@ -93,6 +100,7 @@ def time_env(tm_now):
         return v
     return [(r'^<ChronyFloat as Into<f64>>::into$|^<f64 as From<ChronyFloat>>::from$', chrony_float),
             (r'(^|::)SystemTime::elapsed$', elapsed), (r'(^|::)Duration::from_secs$', from_secs), (r'(^|::)Duration::try_from_secs_f64$', try_from_secs_f64), (r'(^|::)Duration::from_millis$', from_millis),
+            (r'(^|::)Duration::(as_nanos|as_micros|as_millis|as_secs|subsec_nanos|subsec_micros|subsec_millis|is_zero)$', dur_get),
             (r'^<Duration as PartialOrd>::(gt|ge|lt|le)$|^<Duration as PartialEq>::(eq|ne)$', dur_cmp)]
 
 
@@ -180,8 +188,9 @@ def check_c07(tier, seed):
                 bad = c07_oracle(nat)
                 if bad:
                     stats[1] += 1
-                    kind = 'signed-offset' if nat['c'] < 0 and nat['bound'] < (abs(nat['c']) + nat['r'] + nat['d'] / 2) * NS * (1 - TOL) and \
-                        nat['bound'] >= (nat['c'] + nat['r'] + nat['d'] / 2) * NS * (1 - TOL) - 1 else name
+                    signed = (nat['c'] + nat['r'] + nat['d'] / 2) * NS
+                    unsigned = (abs(nat['c']) + nat['r'] + nat['d'] / 2) * NS
+                    kind = 'signed-offset' if (nat['c'] < 0 and unsigned - signed > 4 and abs(nat['bound'] - signed) <= 2) else name
                     ck.violation(kind, '%s for wire values offset=%s delay=%s dispersion=%s: real extract_bound_from_tracking (%s) returned %d ns' %
                                  ('; '.join(bad), float(nat['c']), float(nat['d']), float(nat['r']), prof, nat['bound']),
                                  {'cmd': nat['raw'], 'values_seen_by_the_code': {k: str(nat[k]) for k in ('c', 'd', 'r')}})
